@@ -80,6 +80,18 @@ chk('C19', 'exploration', 'bounded exhaustive enumeration of formulas x grid tra
     'bounded formula size and trace length; both sides are the implementation',
     'DESIGN.md section 5 C19')
 
+chk('C07', 'exploration', 'bounded exhaustive enumeration of formulas x traces x 4 real monitors; exhaustive enumeration of each perturbation neighbourhood',
+    'every iff/xor-free formula of the set is monitored by the four real monitor kinds on every trace up to length 3 over {-2..2}; every reported positive (negative) value must coincide with Boolean satisfaction (violation) computed by an independent evaluator, '
+    'and for every finite non-zero value all traces of the alphabet within distance |rho| are enumerated and must have the same verdict',
+    'the real-valued ball is covered on the integer grid only; open finding site:C03-past-over-future (pastified past-over-future) suppressed syntactically',
+    'DESIGN.md section 5 C07')
+
+chk('C06', 'exploration', 'bounded exhaustive enumeration of formulas x io assignments x semantics x monitor kinds x traces vs reference with predicate hook',
+    'formulas over predicates on inputs only, outputs only and mixed are monitored by the 4 real monitor kinds under the 5 semantics and all input/output assignments of (x,y) on all traces up to length 3 / a family of unaligned grid signals; '
+    'results must equal the reference in which exactly the insensitive predicates are replaced by +-inf / 0',
+    'trusted: reference with predicate hook (vf/refsem.py, vf/dref.py)',
+    'DESIGN.md section 5 C06')
+
 def main():
     props = [json.loads(l) for l in open(os.path.join(ROOT, 'properties.jsonl'))]
     checks = []
